@@ -73,7 +73,14 @@ theorem envRow_width {O : Oracles} {q : SelectStmt} {env : Env} {keys : List Str
     rw [hf] at h
     simp only [bind] at h
     cases hv : eval O env f with
-    | ok v => rw [hv] at h; exact core v.truthy h
+    | ok v =>
+      rw [hv] at h
+      simp only [Outcome.bind] at h
+      cases hc : condHolds v with
+      | ok b => rw [hc] at h; exact core b h
+      | error k => rw [hc] at h; cases h
+      | panic s => rw [hc] at h; cases h
+      | oracleMissing w => rw [hc] at h; cases h
     | error k => rw [hv] at h; cases h
     | panic s => rw [hv] at h; cases h
     | oracleMissing w => rw [hv] at h; cases h
